@@ -56,6 +56,7 @@ func buildEvidence(prop, tier string, seed int, reports []*harnessReport, funcs 
 		"inconclusive":                  inc,
 		"solver_checks":                 checks,
 		"solver_time_s":                 float64(interp.SolverStats.NanosSum) / 1e9,
+		"solver_error_answers":          interp.SolverStats.Errors,
 		"ssa_instructions":              steps,
 		"functions_encoded":             fl,
 		"harnesses":                     harnessInfo,
